@@ -29,8 +29,10 @@ import json
 import os
 import pickle
 import random
+import re
 import subprocess
 import sys
+import time
 import warnings
 
 import numpy as np
@@ -108,6 +110,7 @@ GEN_OUT = os.path.join(core.LEAN, "PyribsGen", "RngSites.lean")
 
 
 def translate(ctx):
+    t_start = time.time()
     try:
         sites, spawns, changed = rng_sites.translate(core.REPO, GEN_OUT)
     except (SyntaxError, FileNotFoundError, OSError) as e:
@@ -131,6 +134,8 @@ def translate(ctx):
     }
     ctx.c09_bad_sites = bad
     ctx.c09_bad_spawns = badsp
+    ctx.extra["phase_seconds"] = {"translate": round(time.time() - t_start, 2)}
+    ctx.c09_t_translated = time.time()
     for s in bad:
         ctx.notes.append(f"site not seeded: {s['file']}:{s['line']} {s['api']} -> {s['prov'][0]} ({s['note']})")
     for sp in badsp:
@@ -223,8 +228,11 @@ def make_emitter(spec, archive, seed, k):
             selection_rule=spec.get("sel", "filter"), restart_rule=spec.get("restart", "no_improvement"),
             batch_size=spec.get("batch", 4), seed=s)
     if kind == "gop":
+        # the iso_line_dd operator samples elites in ask_dqd and therefore needs initial_solutions, not x0
+        start = ({"initial_solutions": np.array([x0, x0 + 0.5, x0 - 0.7])} if spec.get("op") == "iso_line_dd"
+                 else {"x0": x0})
         return _spy(E.GradientOperatorEmitter)(
-            archive, sigma=0.1, sigma_g=0.2, x0=x0, line_sigma=spec.get("line", 0.0),
+            archive, sigma=0.1, sigma_g=0.2, line_sigma=spec.get("line", 0.0), **start,
             measure_gradients=bool(spec.get("mg", False)), normalize_grad=bool(spec.get("norm", False)),
             operator_type=spec.get("op", "isotropic"), batch_size=spec.get("batch", 3), seed=s)
     if kind == "gauss":
@@ -481,18 +489,28 @@ def _resume_main(path):
                                      "disturbed": obs.disturbed, "error": obs.error}))
 
 
+class Diff(str):
+    """Stable description of a difference (goes into Failure.what); run-dependent values go into .values."""
+
+    def __new__(cls, text, values=None):
+        o = super().__new__(cls, text)
+        o.values = values
+        return o
+
+
 def first_diff(o1, o2, only_prefix=None):
     """First label on which two observation logs differ, or None."""
     i1 = [x for x in o1.items if only_prefix is None or x[0].startswith(only_prefix)]
     i2 = [x for x in o2.items if only_prefix is None or x[0].startswith(only_prefix)]
     for a, b in zip(i1, i2):
         if a[0] != b[0]:
-            return f"observation sequence diverges: {a[0]} vs {b[0]}"
+            return Diff(f"observation sequence diverges: {a[0]} vs {b[0]}")
         if a[1] != b[1]:
-            return f"{a[0]}: {a[2]} vs {b[2]}"
+            return Diff(f"first differing observable: {a[0]}", f"{a[2]} vs {b[2]}")
     if len(i1) != len(i2):
         longer = i1 if len(i1) > len(i2) else i2
-        return f"one run made {abs(len(i1)-len(i2))} more observations (first extra: {longer[min(len(i1), len(i2))][0]})"
+        return Diff(f"one run made {abs(len(i1)-len(i2))} more observations "
+                    f"(first extra: {longer[min(len(i1), len(i2))][0]})")
     return None
 
 
@@ -523,7 +541,8 @@ def run_case(case, ctx=None, fresh_process=False):
             return Failure("oracle", f"global random state disturbed by {o.disturbed} ({nm} run) :: {what}")
     d = first_diff(oa, ob)
     if d is not None:
-        return Failure("oracle", f"same seeds, different global random state -> different results: {d} :: {what}")
+        return Failure("oracle", f"same seeds, different global random state -> different results: {d} :: {what}",
+                       detail=d.values)
     if oa.error is not None:
         cnt("rejected:" + oa.error.split(":")[0])
         case["_rejected"] = True
@@ -537,7 +556,7 @@ def run_case(case, ctx=None, fresh_process=False):
         d = first_diff(oa, op)
         if d is not None:
             return Failure("oracle", f"run pickled before iteration {case.get('ckpt', 0) % len(case['ops'])} does "
-                                     f"not continue like the uninterrupted run: {d} :: {what}")
+                                     f"not continue like the uninterrupted run: {d} :: {what}", detail=d.values)
         cnt("ii:pickle-continuation-identical")
         if fresh_process:
             f = fresh_process_resume(case, oa)
@@ -680,10 +699,10 @@ def es_emitter(rng, archive_kind, es=None, ranker=None, kind="es"):
     e = {"kind": kind, "seed": rng.randrange(1, 10**6), "ss": rng.random() < 0.35,
          "es": es or rng.choice(ES_NAMES), "batch": rng.choice([4, 6]),
          "sel": rng.choice(["filter", "mu"]), "restart": rng.choice(["no_improvement", "basic", 2])}
-    if archive_kind == "proximity":
-        e["ranker"] = "nov" if kind == "es" else rng.choice(["nov"])
-    else:
-        e["ranker"] = ranker or rng.choice(RANKERS)
+    e["ranker"] = "nov" if archive_kind == "proximity" else (ranker or rng.choice(RANKERS))
+    if e["es"] == "lm_ma_es":
+        # LM-MA-ES rejects batch_size > dimension of its search space (D, or measure_dim + 1 inside a GA emitter)
+        e["batch"] = 4 if kind == "es" else rng.choice([2, 3])
     if kind == "ga":
         e["grad_opt"] = rng.choice(["adam", "gradient_ascent"])
         e["norm"] = rng.random() < 0.7
@@ -772,6 +791,8 @@ def strata(ctx):
         for _ in range(rng.randint(2, 3)):
             pool.append(es_emitter(rng, k) if rng.random() < 0.5 else simple_emitter(rng))
         c["emitters"] = pool
+        if k == "proximity":
+            add_mode = "batch"  # ProximityArchive.add_single returns length-1 arrays: the scheduler rejects them
         c["sched"], c["add_mode"], c["result_archive"] = sched, add_mode, ra
         c["num_active"] = rng.randint(1, len(pool))
         return c
@@ -815,6 +836,21 @@ def minimise(case, fail):
                 break
 
 
+def signature(case, fail, final=False):
+    """Identity of a failure for reporting each distinct symptom once."""
+    label = fail.what.split(" :: ")[0]
+    label = re.sub(r"\[[^\]]*\]|-?\d[\d.e+-]*", "#", label)[:120]
+    arch = (case["archive"]["kind"], case["archive"].get("method"))
+    ems = tuple(sorted({e["kind"] + "/" + str(e.get("es", "")) + "/" + str(e.get("ranker", ""))
+                        for e in case["emitters"]}))
+    if not final:
+        return (label, arch, ems)
+    # on minimised cases: the archive matters only for construction-time symptoms, the emitters for the others
+    if "centroids" in label or "archive constructor" in label:
+        return (label, arch, None)
+    return (label, None, tuple(sorted({e["kind"] + "/" + str(e.get("es", "")) for e in case["emitters"]})))
+
+
 def nontrivial(case):
     if case.get("_rejected") or len(case["ops"]) < 2:
         return False
@@ -831,46 +867,63 @@ def canon(case):
 
 
 def run(ctx):
+    t_run = time.time()
+    if hasattr(ctx, "c09_t_translated"):
+        ctx.extra["phase_seconds"]["build_and_audit_incl_lock_wait"] = round(t_run - ctx.c09_t_translated, 2)
     _init_spies()
     bad = getattr(ctx, "c09_bad_sites", None)
     if bad is None:  # run() called without translate(): still report the sites
         translate(ctx)
         bad = ctx.c09_bad_sites
     broken = bool(bad) or bool(getattr(ctx, "c09_bad_spawns", []))
-    # a broken obligation widens the search for a concrete failing input (DESIGN 2.8)
-    scale = 3 if broken and ctx.quick else 1
     gens = strata(ctx)
     order = ["archives", "es", "dqd", "mixed"]
     if broken:
+        # a broken obligation directs the search for a concrete failing input (DESIGN 2.8): strata that
+        # exercise the files of the offending sites first, every stratum is run, and the search is extended
+        # when the first pass found nothing
         files = " ".join(s["file"] for s in bad)
         pri = [n for n, kw in (("archives", "archives/"), ("es", "emitters/"), ("dqd", "gradient"),
                                ("mixed", "schedulers/")) if kw in files]
         order = pri + [n for n in order if n not in pri]
-        ctx.notes.append(f"proof obligation broken by the generated table: searching with budget x{scale}, "
-                         f"strata order {order}")
+        ctx.notes.append(f"proof obligation broken by the generated table ({len(bad)} site(s) not seeded, "
+                         f"{len(getattr(ctx, 'c09_bad_spawns', []))} spawn(s) not separated): searching for a "
+                         f"concrete failing input, strata order {order}")
     plan = {
-        "archives": (ctx.n(16, 400), 11 if ctx.quick else 120),
-        "es": (ctx.n(12, 600), 10 if ctx.quick else 180),
-        "dqd": (ctx.n(6, 300), 6 if ctx.quick else 100),
-        "mixed": (ctx.n(6, 400), 6 if ctx.quick else 120),
+        "archives": (ctx.n(16, 400), 10 if ctx.quick else 120),
+        "es": (ctx.n(12, 600), 9 if ctx.quick else 180),
+        "dqd": (ctx.n(6, 300), 5 if ctx.quick else 100),
+        "mixed": (ctx.n(6, 400), 5 if ctx.quick else 120),
     }
     n_fresh = [ctx.n(1, 24)]
-    for name in order:
-        n_cases, budget = plan[name]
+    seen_sigs = {}
+
+    def case_id(case):
+        a = case["archive"]
+        return (case.get("stratum"), case.get("case_index"), a["kind"], a.get("method"), a["seed"])
+
+    def make_runner(name):
         seen = [0]
 
-        def runner(case, name=name, seen=seen):
+        def runner(case):
             seen[0] += 1
             fresh = False
             if n_fresh[0] > 0 and "shrunk_from" not in case and not has_pycma(case) and seen[0] % 7 == 3:
                 fresh = True
                 n_fresh[0] -= 1
             f = run_case(case, ctx, fresh_process=fresh)
-            if f is not None and "shrunk_from" not in case and not case.get("_minimised"):
-                minimise(case, f)
-            if f is None and nontrivial(case):
+            if f is not None:
+                # report each distinct failure once (same archive kind / centroid method / failing observable)
+                owner = seen_sigs.setdefault(signature(case, f), case_id(case))
+                if owner != case_id(case):
+                    ctx.count("duplicate-failure-suppressed")
+                    return None
+                if "shrunk_from" not in case and not case.get("_minimised"):
+                    minimise(case, f)
+                return f
+            if nontrivial(case):
                 ctx.mark_nontrivial(canon(case))
-            if f is None and not case.get("_rejected"):
+            if not case.get("_rejected"):
                 ctx.count(f"{name}:archive={case['archive']['kind']}"
                           + (f"/{case['archive']['method']}" if case["archive"]["kind"] == "cvt" else ""))
                 for e in case["emitters"]:
@@ -878,12 +931,52 @@ def run(ctx):
                 ctx.count("scheduler=" + case["sched"])
                 ctx.count("seedkind=" + ("SeedSequence" if case["archive"].get("ss") or any(
                     e.get("ss") for e in case["emitters"]) else "int"))
-            return f
+            return None
 
-        ctx.explore(name, gens[name], runner, n_cases * scale, nontrivial=lambda c: False, shrink_key="ops",
-                    time_budget=budget * scale, max_fail=1)
+        return runner
+
+    for name in order:
+        n_cases, budget = plan[name]
+        ctx.explore(name, gens[name], make_runner(name), n_cases, nontrivial=lambda c: False, shrink_key="ops",
+                    time_budget=budget, max_fail=4)
         if ctx.failures and not broken:
             break
+    if broken and not ctx.failures:
+        # extended search: more cases of every stratum, as long as the tier's time allows
+        limit = 36 if ctx.quick else 560
+        rnd = 0
+        while ctx.elapsed() < limit and rnd < 6 and not ctx.failures:
+            rnd += 1
+            for name in order:
+                left = limit - ctx.elapsed()
+                if left <= 1:
+                    break
+                ctx.explore(f"{name}-extended{rnd}", gens[name], make_runner(name), plan[name][0],
+                            nontrivial=lambda c: False, shrink_key="ops", time_budget=min(left, plan[name][1]),
+                            max_fail=4)
+        ctx.notes.append(f"extended search: {rnd} extra round(s), "
+                         + ("a failing input was found" if ctx.failures else "no failing input found"))
+    if broken and not any(f.kind == "oracle" for f, _ in ctx.failures):
+        # no concrete failing input: name the rows of the regenerated table that break T09.3 / T09.4
+        ctx.fail(Failure("corr", "regenerated site table breaks " + site_table_summary(ctx)),
+                 {"stratum": "site-table",
+                  "sites": [{k: s[k] for k in ("file", "line", "scope", "kind", "api", "note")}
+                            | {"prov": s["prov"][0]} for s in bad],
+                  "spawns": [{"file": sp["file"], "line": sp["line"], "consumers": [list(c) for c in sp["consumers"]]}
+                             for sp in ctx.c09_bad_spawns]})
+    rejected = sum(v for k, v in ctx.dist.items() if k.startswith("rejected:"))
+    if ctx.evaluations and rejected * 4 > ctx.evaluations:
+        ctx.notes.append(f"warning: {rejected} of {ctx.evaluations} generated pipelines were rejected by pyribs")
+    uniq, kept = set(), []
+    for f, c in ctx.failures:
+        sig = signature(c, f, final=True)
+        if sig in uniq:
+            ctx.count("duplicate-failure-suppressed")
+            continue
+        uniq.add(sig)
+        kept.append((f, {k: v for k, v in c.items() if not k.startswith("_")}))
+    ctx.failures[:] = kept
+    ctx.extra.setdefault("phase_seconds", {})["double_runs"] = round(time.time() - t_run, 2)
     ctx.extra["double_runs"] = {
         "pipelines_per_case": "4 (a, b, pickled, changed seed) + fresh-process resumption for a few cases",
         "observables": "CVT centroids, every ask()/ask_dqd() batch, add feedback per emitter and tell, "
@@ -892,8 +985,26 @@ def run(ctx):
     }
 
 
+def site_table_summary(ctx):
+    parts = []
+    if ctx.c09_bad_sites:
+        parts.append("T09.3 all_sites_seeded: " + "; ".join(
+            f"{s['file']}:{s['line']} {s['api']} is {s['prov'][0]}" for s in ctx.c09_bad_sites[:6]))
+    if ctx.c09_bad_spawns:
+        parts.append("T09.4 spawn_distinct: " + "; ".join(
+            f"{sp['file']}:{sp['line']} children handed out as {[(c[1], c[2]) for c in sp['consumers']]}"
+            for sp in ctx.c09_bad_spawns[:4]))
+    return " | ".join(parts)
+
+
 def replay(ctx, case):
     _init_spies()
+    if case.get("stratum") == "site-table":
+        if not hasattr(ctx, "c09_bad_sites"):
+            translate(ctx)
+        if ctx.c09_bad_sites or ctx.c09_bad_spawns:
+            return Failure("corr", "regenerated site table breaks " + site_table_summary(ctx))
+        return None
     case = {k: v for k, v in case.items() if not k.startswith("_")}
     return run_case(case, ctx, fresh_process=False)
 
